@@ -85,7 +85,7 @@ def main():
             "guard": "cargo feature `verif`",
             "enable": "the harness crate /verif/harness depends on txtpp = { path = \"/repo\", features = [\"verif\"] }; cargo build --release --offline",
             "baseline_off_cmd": "cd /repo && cargo test --workspace --no-fail-fast --offline",
-            "source_commits": ["fbce8eb"],
+            "source_commits": ["fbce8eb", "93647aa"],
             "add_only": True,
         },
         "engines": [
